@@ -299,7 +299,13 @@ def gen_turn_case(rng):
             plan = {"ops": [{"kind": "Speak"}] + [{"kind": "EditGraph"}] * rng.randint(0, 2),
                     "deltas": [["node", "n:x", "weight", 0.3, 1]]}
         jump = rng.randint(1, 40) if rng.random() < 0.5 else None  # perf_counter call index at which 10 s elapse at once
-        turns.append({"agent": rng.choice(["A", "B"]), "text": txt + f" t{t}", "pc_step": step if jump is None else 0.0, "pc_jump": jump, "plan": plan})
+        ov = None
+        if t > 0 and rng.random() < 0.5:
+            # budgets tightened / loosened between turns of one history (same world, warm stage caches)
+            ov = {k: rng.choice([None, 0, 1, 2, 3, 1000]) for k in rng.sample(["t1_pops", "t1_iters", "t2_k", "t3_ops"], rng.randint(1, 3))}
+        if t > 0 and rng.random() < 0.5:
+            txt = turns[-1]["text"].rsplit(" t", 1)[0]  # ask the same thing again
+        turns.append({"agent": rng.choice(["A", "B"]), "text": txt + f" t{t}", "pc_step": step if jump is None else 0.0, "pc_jump": jump, "plan": plan, "budgets": ov})
     return {"world": world, "cfg": cfg, "turns": turns}
 
 
@@ -319,9 +325,13 @@ def check_turn_case(case, sess: Session):
         sess.seen("cfg_rejection_messages", str(ex)[:120])
         return
     with env:
-        b = dict(env.cfg["scheduler"]["budgets"])
         ngraphs = len(case["world"]["graphs"])
         for ti, t in enumerate(case["turns"]):
+            if t.get("budgets"):
+                for k_, v_ in t["budgets"].items():
+                    env.cfg["scheduler"]["budgets"][k_] = v_
+                sess.count("turns_with_changed_budgets")
+            b = dict(env.cfg["scheduler"]["budgets"])
             decisions = []
             real_sy = core._should_yield
 
